@@ -59,7 +59,15 @@ def setup():
 
 def make_market_class():
     setup()
-    from demeter.broker import Market, MarketBalance, BaseAction, write_func
+    from dataclasses import dataclass
+    from demeter.broker import Market, MarketBalance, BaseAction, ActionTypeEnum, write_func
+
+    @dataclass
+    class ProbeAction(BaseAction):
+        """the least a market's action record must be: a BaseAction that names its type"""
+
+        def set_type(self):
+            self.action_type = ActionTypeEnum.general_swap
 
     class ProbeMarket(Market):
         """the Market base class with the least a concrete market must add: a data frame with one column `x`
@@ -78,12 +86,12 @@ def make_market_class():
 
         def update(self):
             now = sec(self.rec.actuator._currents.timestamp)
-            self.rec.ev(["update", self.mid, now])
+            self.rec.ev(["update", now, self.mid])
             for tag in self.update_script.get(now, []):
-                a = BaseAction(market=self.market_info)
+                a = ProbeAction(market=self.market_info)
                 a.comment = tag
                 self._record_action(a)
-                self.rec.ev(["uact", self.mid, tag, now])
+                self.rec.ev(["uact", now, self.mid, tag])
 
         def set_market_status(self, data, price):
             super().set_market_status(data, price)
@@ -97,7 +105,8 @@ def make_market_class():
                 else:
                     data.data = pd.Series(dtype=object)
             self._market_status = data
-            self.rec.ev(["set", self.mid, sec(data.timestamp), bool(self.is_open), src, self.rec.second])
+            stage = 0 if not self.rec.initialized else (2 if self.rec.second else 1)
+            self.rec.ev(["set", sec(data.timestamp), self.mid, stage, bool(self.is_open), src])
 
         def get_market_balance(self):
             return MarketBalance(self.net)
@@ -116,7 +125,7 @@ def make_market_class():
         def op(self, tag, ok=True):
             if not ok:
                 raise ValueError("market refuses " + tag)
-            a = BaseAction(market=self.market_info)
+            a = ProbeAction(market=self.market_info)
             a.comment = tag
             self._record_action(a)
 
@@ -128,6 +137,7 @@ class Recorder:
         self.events = []
         self.actuator = None
         self.second = False
+        self.initialized = False      # set by the strategy's initialize(): refreshes before it are stage 0
 
     def ev(self, e):
         self.events.append(e)
